@@ -5,7 +5,8 @@ Require Import Scale.Bytes Scale.Hex Scale.Codec Scale.CodecMore Scale.Mel.
 Inductive c13case :=
 | KMel (t : ty) (m : N)                 (* <T as MaxEncodedLen>::max_encoded_len() *)
 | KFixed (t : ty) (s : option N)        (* <T as Decode>::encoded_fixed_size() *)
-| KCel (t : ty).                        (* T: ConstEncodedLen *)
+| KCel (t : ty)                         (* T: ConstEncodedLen *)
+| KCelIs (t : ty) (b : bool).           (* whether T carries the ConstEncodedLen marker *)
 
 Definition optN_eqb (a b : option N) : bool :=
   match a, b with Some x, Some y => x =? y | None, None => true | _, _ => false end.
@@ -15,10 +16,12 @@ Definition c13_check (c : c13case) : bool :=
   | KMel t m => optN_eqb (mel t) (Some m)
   | KFixed t s => optN_eqb (fixed_size t) s
   | KCel t => cel t
+  | KCelIs t b => Bool.eqb (cel t) b
   end.
 Definition c13_model (c : c13case) : option N * option N * bool :=
   match c with
   | KMel t _ => (mel t, None, false)
   | KFixed t _ => (None, fixed_size t, false)
   | KCel t => (None, None, cel t)
+  | KCelIs t _ => (None, None, cel t)
   end.
